@@ -164,6 +164,21 @@ def step (d : DSt) (line : String) : DSt × String :=
         | none => "notfound"
         | some o => if o.ct == .bytes then "patched" else if o.ct == .void then "notfound" else "mismatch"
       ({ d with s := stepPatch d.cfg d.s k m }, rep)
+  | ["patchc", k, e] =>
+    match metaOf e with
+    | none => (d, "bad-op")
+    | some m =>
+      let rep := match findKey k d.s.store with
+        | none => "created"
+        | some o => if o.ct == .bytes then "patched" else if o.ct == .void then "created" else "mismatch"
+      ({ d with s := stepPatchCreate d.cfg d.s k m }, rep)
+  | ["shiftkeys", ks] =>
+    let keys := (ks.splitOn ",").filter (· != "")
+    let (s', out) := keys.foldl (fun (acc : St × List String) k =>
+      match findKey k acc.1.store with
+      | none => acc
+      | some _ => (stepDel acc.1 k, acc.2 ++ [k])) (d.s, [])
+    ({ d with s := s' }, "r " ++ ",".intercalate out)
   | ["patchexp", e] =>
     match metaOf e with
     | none => (d, "bad-op")
@@ -194,10 +209,11 @@ def step (d : DSt) (line : String) : DSt × String :=
     | _, _, _, _ => (d, "bad-op")
   | ["reload"] => ({ d with s := if d.s.store.isEmpty then d.s else stepReload d.s }, "ok")
   | ["q", idx, ord, fr, lim, ft, tt, _via] =>
-    match slotOf idx, fr.toNat?, lim.toNat?, optT ft, optT tt with
+    match slotOf idx, fr.toInt?, lim.toNat?, optT ft, optT tt with
     | some sl, some fr, some lim, some ft, some tt =>
       if ord != "asc" && ord != "desc" then (d, "bad-op") else
-      let q : Query := { slot := sl, asc := ord == "asc", from_ := fr, limit := lim, fromT := ft, toT := tt }
+      -- (`GetTreasuresByBeacon`: `if from < 0 { from = 0 }`)
+      let q : Query := { slot := sl, asc := ord == "asc", from_ := fr.toNat, limit := lim, fromT := ft, toT := tt }
       match answer d.cfg d.s q with
       | none => (d, "err noswamp")
       | some res =>
